@@ -30,3 +30,4 @@ def run(project, rep):
     rep.run_only(("Q-R1",), Q.q_r1_params, project, rep, constructs=lambda c: c.endswith("(version)"))
     rep.rule("B-R15", "the version a client is configured with is not changed by composing a request: no method of the client but the constructor stores self.version (the version clause of Q-R10) - a temporary swap that an exception leaves in place makes every later header of the wrong kind")
     rep.run_only(("Q-R10",), Q.q_r10_builders_keep_no_state, project, rep, constructs=lambda c: ":self.version:" in c or c.endswith("no-state"))
+    rep.run(Q.q_r11_explicit_overrides_honoured, project, rep, only=("version",))
